@@ -209,8 +209,13 @@ def run(ctx: Ctx) -> None:
             n4 += 1
             desc = f"`{unparse(n, 60)}` binds the call's own argument nodes"
             bad_item = None
+            dropped = None
             for a in list(n.args[1:]) + [k.value for k in n.keywords]:
                 sl = ctx.slicer(follow_calls=True).slice(g, a)
+                flt = sl.find(lambda f_, x: (isinstance(x, (ast.ListComp, ast.GeneratorExp, ast.DictComp)) and any(gen.ifs for gen in x.generators))
+                              or (isinstance(x, ast.Call) and isinstance(x.func, ast.Name) and x.func.id == "filter"))
+                if flt is not None and dropped is None:
+                    dropped = flt
                 for it in sl.find_all(lambda f_, x: f_.module.name == "dds._retrieve_objects"):
                     # the function that consulted the resolver: last item of the chain outside the resolver module
                     cur = it
@@ -229,7 +234,12 @@ def run(ctx: Ctx) -> None:
                         break
                 if bad_item is not None:
                     break
-            if bad_item is None:
+            if dropped is not None:
+                rep.bad("C13.R4", g.qname, "every argument node of the call reaches the binder (none is filtered out)", g.loc(n), dropped.chain() + [
+                    f"`{unparse(dropped.node, 70)}` removes argument nodes before the binding: a `*xs` argument that used to make the binding unknown (call keyed by its "
+                    "call-site context) disappears, the parameters it would have bound take their defaults, and `keep(p, f, *xs)` is keyed as `f()`"],
+                    stmt_key(n) + "filter", what="argument nodes of a kept call are dropped before the binding")
+            elif bad_item is None:
                 rep.ok("C13.R4", g.qname, desc, g.loc(n))
             else:
                 rep.bad("C13.R4", g.qname, desc, g.loc(n), bad_item.chain() + [
@@ -237,6 +247,13 @@ def run(ctx: Ctx) -> None:
                     "function being analysed: `def pipeline(batch): dds.keep(p, f, batch)` with a module constant `batch = 3` is keyed as f(3) for every value of batch"],
                     stmt_key(n), what="a local variable passed to a kept call is hashed as the module constant of the same name")
     rep.floor("C13.R4", n4, 1)
+
+    # ---- R6: distinct string values get distinct hashes ------------------------------------------------------------
+    from .c05 import algo_preimage_rule
+    rep.rule("C13.R6", "as C05.R8: the digest helpers hash the bound value itself (no strip / case folding / replace before hashlib): bindings that differ "
+                       "by trailing whitespace or a line ending get different signatures")
+    n6_ = algo_preimage_rule(ctx, "C13.R6")
+    rep.floor("C13.R6", n6_, 2)
 
     # ---- R5: a ** mapping at the call seen in source is an unknown binding, never "argument omitted" -----------------
     rep.rule("C13.R5", "literal binder: the default value of a parameter is taken only under the outcome 'the call has no ** mapping' "
